@@ -87,9 +87,14 @@ def flSplitEmptied (fl : FL) (k rem newTid : Nat) : FL :=
 
 /-! ### zone_malloc -/
 
-/-- the unit count as the code computes it: `int nb_units = (size + unit_size - 1) / unit_size`
-    (size_t arithmetic modulo 2^64, then conversion to int modulo 2^32) -/
-def reqUnits (unit size : Nat) : Int :=
+/-- the unit count of the repaired code (commit 6e3ff3b):
+    `size_t req_units = size / unit_size + ((size % unit_size) ? 1 : 0)` — no overflow for size < 2^64 -/
+def reqUnits (unit size : Nat) : Nat := size / unit + (if size % unit = 0 then 0 else 1)
+
+/-- the unit count as the code computed it BEFORE the repair:
+    `int nb_units = (size + unit_size - 1) / unit_size` (size_t arithmetic modulo 2^64, then conversion to
+    int modulo 2^32).  Kept to state the finding as a theorem. -/
+def reqUnitsBuggy (unit size : Nat) : Int :=
   if ((size + unit - 1) % 2 ^ 64 / unit) % 2 ^ 32 < 2 ^ 31 then
     (((size + unit - 1) % 2 ^ 64 / unit) % 2 ^ 32 : Nat)
   else ((((size + unit - 1) % 2 ^ 64 / unit) % 2 ^ 32 : Nat) : Int) - 2 ^ 32
@@ -265,15 +270,24 @@ def isLive (live : List (Nat × Nat)) (t : Nat) : Bool := live.any (fun e => e.1
 
 def dropLive (live : List (Nat × Nat)) (t : Nat) : List (Nat × Nat) := live.filter (fun e => e.1 != t)
 
-/-- malloc of `size` bytes.  A negative int unit count is outside the precondition (the code then
-    indexes the table with negative offsets). -/
+/-- malloc of `size` bytes: NULL for a request of 0 units or of more units than `max_segment`
+    (the early return added by the repair), else the best-fit search. -/
 def sysMalloc (y : Sys) (size : Nat) : Sys × Out :=
-  if reqUnits y.z.unit size < 0 then (y, .rejected)
-  else if reqUnits y.z.unit size = 0 then (y, .null)
+  if reqUnits y.z.unit size = 0 ∨ reqUnits y.z.unit size > y.z.segs.length then (y, .null)
   else
-    match mallocUnits y.z (reqUnits y.z.unit size).toNat with
+    match mallocUnits y.z (reqUnits y.z.unit size) with
     | none => (y, .null)
-    | some r => (⟨r.1, (r.2, (reqUnits y.z.unit size).toNat) :: y.live⟩, .ptr (r.2 * y.z.unit))
+    | some r => (⟨r.1, (r.2, reqUnits y.z.unit size) :: y.live⟩, .ptr (r.2 * y.z.unit))
+
+/-- zone_malloc as it was before the repair (int unit count); a negative count was outside the
+    precondition (the code then indexed the table with negative offsets). -/
+def sysMallocBuggy (y : Sys) (size : Nat) : Sys × Out :=
+  if reqUnitsBuggy y.z.unit size < 0 then (y, .rejected)
+  else if reqUnitsBuggy y.z.unit size = 0 then (y, .null)
+  else
+    match mallocUnits y.z (reqUnitsBuggy y.z.unit size).toNat with
+    | none => (y, .null)
+    | some r => (⟨r.1, (r.2, (reqUnitsBuggy y.z.unit size).toNat) :: y.live⟩, .ptr (r.2 * y.z.unit))
 
 /-- free of the byte offset `off`.  Precondition of the API: a multiple of the unit and either the
     base of a live allocation, or an address the code itself refuses (outside the table / entry marked
